@@ -76,7 +76,7 @@ def ipcInit {P : Type} (ctx : P) : IpcState P := ⟨.header [] false, ctx⟩
 
 /-- `if *read == 4 { … }`: continuation marker, zero length (EOS) or metadata length -/
 def headerDone {P : Type} (ctx : P) (buf : Bytes) (cont : Bool) : IpcState P :=
-  if !cont && buf == ipcMarker then ⟨.header [] true, ctx⟩
+  if !cont && buf == ipcMarker then ⟨.header (buf.take IPC_HEADER_COPY_FROM) true, ctx⟩  -- `*read = 0`
   else if leVal buf = 0 then ⟨.finished, ctx⟩
   else ⟨.message (leVal buf) [], ctx⟩
 
@@ -106,8 +106,8 @@ def ipcIterNoBody {P O : Type} (pr : IpcParams P O) (s : IpcState P) (buffer : B
   | .message size buf =>
     if size ≤ buf.length then (⟨.failed .stuck, s.ctx⟩, [], 0) else
     if buf.isEmpty ∧ buffer.length > size then
-      -- zero-copy: the metadata is a slice of the input buffer
-      (messageDone pr s.ctx (buffer.take size), [], size)
+      -- zero-copy: the metadata is `buffer.slice_with_length(0, len)`
+      (messageDone pr s.ctx ((buffer.drop IPC_MSG_SLICE_START).take size), [], size)
     else
       let toRead := min buffer.length (size - buf.length)
       let buf' := buf ++ buffer.take toRead
@@ -126,8 +126,8 @@ def ipcIter {P O : Type} (pr : IpcParams P O) (s : IpcState P) (buffer : Bytes) 
   | .body md bl buf =>
     if ¬ buf.isEmpty ∧ bl ≤ buf.length then (⟨.failed .stuck, s.ctx⟩, [], 0) else
     if buf.isEmpty ∧ buffer.length ≥ bl then
-      -- zero-copy body
-      let r := bodyDone pr s.ctx md (buffer.take bl)
+      -- zero-copy body: `buffer.slice_with_length(0, body_length)`
+      let r := bodyDone pr s.ctx md ((buffer.drop IPC_BODY_SLICE_START).take bl)
       if bl = 0 then
         let r2 := ipcIterNoBody pr r.1 buffer
         (r2.1, r.2 ++ r2.2.1, r2.2.2)
@@ -601,5 +601,129 @@ def jFinish (cfg : JCfg) (s : JState) : List Tape × Option JErr :=
       let r := jFlush cfg s
       (r.2, r.1.err)
     | _ => ([], some .flush)
+
+/-! ## CSV `RecordDecoder` / `Decoder` (arrow-csv/src/reader/{records,mod}.rs) around a concrete
+tokenizer mirroring `csv_core::Reader` as arrow-csv configures it by default
+(delimiter `,`, quote `"` with `""` doubling, no escape byte, no comment byte, terminator
+`CRLF` = any of `\r`, `\n`, `\r\n`; blank lines skipped; a final record needs no terminator).
+
+The tokenizer states are the states of csv-core's DFA (its NFA with the epsilon moves
+collapsed).  `csvStep` is the byte-at-a-time machine; `csvIter` is one round of the loop of
+`read_record_dfa` as written: the UTF-8 BOM check of `strip_utf8_bom` on the first call, one
+DFA step, and `scan_and_copy` (a bulk copy of the run of ordinary bytes) while inside a field.
+Completed records are validated against `num_columns` (`RecordDecoder::decode`), skipped while
+`to_skip > 0`, buffered, and flushed as a batch as soon as `batch_size` rows are buffered
+(`Decoder::capacity() == 0` ⇒ `BufReader::read` stops reading and calls `flush`). -/
+
+inductive CsvSt
+  | startRecord | inField | inQuoted | inDoubleQuote | endFieldDelim | endRecord | crlf
+  deriving DecidableEq, Repr
+
+structure CsvCfg where
+  ncols : Nat
+  batchSize : Nat
+
+abbrev Row := List Bytes
+
+structure CsvState where
+  st : CsvSt
+  field : Bytes          -- the field in progress
+  fields : List Bytes    -- completed fields of the record in progress
+  rows : List Row        -- buffered complete rows (`RecordDecoder::num_rows`)
+  toSkip : Nat           -- `Decoder::to_skip`
+  hasRead : Bool         -- `csv_core::Reader::has_read`
+  err : Bool
+  deriving DecidableEq, Repr
+
+def csvInit (toSkip : Nat) : CsvState := ⟨.startRecord, [], [], [], toSkip, false, false⟩
+
+def csvBom : Bytes := [0xEF, 0xBB, 0xBF]
+def isTerm (c : Nat) : Bool := c == 13 || c == 10
+def csvPlain (c : Nat) : Bool := !(c == 44 || c == 34 || c == 13 || c == 10)
+
+/-- `StringRecords` → batch: whole-buffer UTF-8 check of `RecordDecoder::flush` -/
+def rowsValid (rows : List Row) : Bool :=
+  let data := (rows.map List.flatten).flatten
+  utf8Valid (data.length + 1) data
+
+/-- `Decoder::flush`: the buffered rows become a batch -/
+def csvFlush (s : CsvState) : CsvState × List (List Row) :=
+  if s.rows.isEmpty then (s, [])
+  else if !rowsValid s.rows then ({ s with err := true }, [])
+  else ({ s with rows := [] }, [s.rows])
+
+/-- a record is complete (`ReadRecordResult::Record`): field-count check, skip, buffer, flush
+when the batch is full.  `st'` is the tokenizer state after the terminator. -/
+def csvEndRecord (cfg : CsvCfg) (s : CsvState) (st' : CsvSt) : CsvState × List (List Row) :=
+  let record := s.fields ++ [s.field]
+  let s1 := { s with st := st', field := [], fields := [] }
+  if record.length ≠ cfg.ncols then ({ s1 with err := true }, [])
+  else if s1.toSkip > 0 then ({ s1 with toSkip := s1.toSkip - 1 }, [])
+  else
+    let s2 := { s1 with rows := s1.rows ++ [record] }
+    if s2.rows.length ≥ cfg.batchSize then csvFlush s2 else (s2, [])
+
+def termState (c : Nat) : CsvSt := if c = 13 then .crlf else .endRecord
+
+/-- NFA `StartField` on byte `c` -/
+def csvStartField (cfg : CsvCfg) (s : CsvState) (c : Nat) : CsvState × List (List Row) :=
+  if c = 34 then ({ s with st := .inQuoted }, [])
+  else if c = 44 then ({ s with st := .endFieldDelim, fields := s.fields ++ [s.field], field := [] }, [])
+  else if isTerm c then csvEndRecord cfg s (termState c)
+  else ({ s with st := .inField, field := s.field ++ [c] }, [])
+
+/-- NFA `StartRecord` on byte `c`: blank lines are discarded -/
+def csvStartRecord (cfg : CsvCfg) (s : CsvState) (c : Nat) : CsvState × List (List Row) :=
+  if isTerm c then ({ s with st := .startRecord }, []) else csvStartField cfg s c
+
+/-- one DFA step of csv-core (plus the record handling of `RecordDecoder::decode`) -/
+def csvStep (cfg : CsvCfg) (s : CsvState) (c : Nat) : CsvState × List (List Row) :=
+  if s.err then (s, []) else
+  let s := { s with hasRead := true }
+  match s.st with
+  | .startRecord => csvStartRecord cfg s c
+  | .endRecord => csvStartRecord cfg s c
+  | .crlf => if c = 10 then ({ s with st := .startRecord }, []) else csvStartRecord cfg s c
+  | .endFieldDelim => csvStartField cfg s c
+  | .inField =>
+    if c = 44 then ({ s with st := .endFieldDelim, fields := s.fields ++ [s.field], field := [] }, [])
+    else if isTerm c then csvEndRecord cfg s (termState c)
+    else ({ s with field := s.field ++ [c] }, [])
+  | .inQuoted =>
+    if c = 34 then ({ s with st := .inDoubleQuote }, [])
+    else ({ s with field := s.field ++ [c] }, [])
+  | .inDoubleQuote =>
+    if c = 34 then ({ s with st := .inQuoted, field := s.field ++ [c] }, [])
+    else if c = 44 then ({ s with st := .endFieldDelim, fields := s.fields ++ [s.field], field := [] }, [])
+    else if isTerm c then csvEndRecord cfg s (termState c)
+    else ({ s with st := .inField, field := s.field ++ [c] }, [])
+
+/-- one round of `read_record_dfa` on a non-empty input: BOM strip on the very first call,
+`scan_and_copy` of a run of ordinary bytes inside a field, otherwise one DFA step -/
+def csvIter (cfg : CsvCfg) (s : CsvState) (buf : Bytes) : CsvState × List (List Row) × Nat :=
+  if s.err then (s, [], 0)
+  else if !s.hasRead ∧ buf.length ≥ 3 ∧ buf.take 3 = csvBom then
+    ({ s with hasRead := true }, [], 3)
+  else if (s.st = .inField ∨ s.st = .inQuoted) ∧ (buf.takeWhile csvPlain).length > 0 then
+    let run := buf.takeWhile csvPlain
+    ({ s with hasRead := true, field := s.field ++ run }, [], run.length)
+  else
+    match buf with
+    | [] => (s, [], 0)
+    | c :: _ => let r := csvStep cfg s c; (r.1, r.2, 1)
+
+/-- `Decoder::decode` + `flush` driven by `BufReader::read` for one non-empty `fill_buf` chunk -/
+def csvFeed (cfg : CsvCfg) (s : CsvState) (chunk : Bytes) : CsvState × List (List Row) :=
+  bulkLoop (csvIter cfg) s chunk
+
+/-- end of input (`decode(&[])`: `transition_final_dfa`) and the last `flush` -/
+def csvFinish (cfg : CsvCfg) (s : CsvState) : List (List Row) × Bool :=
+  if s.err then ([], true) else
+  let r := match s.st with
+    | .startRecord | .endRecord | .crlf => (s, [])
+    | _ => csvEndRecord cfg s .startRecord
+  if r.1.err then (r.2, true) else
+  let f := csvFlush r.1
+  (r.2 ++ f.2, f.1.err)
 
 end ArrowModel.C14
